@@ -157,6 +157,13 @@ def run(cx):
                     if any(k in ty for k in ("quinn::send_stream::SendStream", "quinn::recv_stream::RecvStream", "anemo::connection::SendStream", "FramedWrite<", "FramedRead<", "codec::framed::Framed<")):
                         n += 1
                         ok = path in (f"{RH}::BiStreamRequestHandler", "anemo::connection::SendStream")
+                        if not ok:
+                            # a struct that merely groups the two halves *inside one RPC* is not a cache: nothing else embeds
+                            # it, and values of it exist only as locals of the per-RPC functions
+                            embedded = [q for q, a2 in prog.adts.items() if q != path and any(path in f2["ty"] for v2 in a2["variants"] for f2 in v2["fields"])]
+                            PER_RPC = (f"{PEER}::do_rpc", f"{RH}::BiStreamRequestHandler::new", f"{RH}::BiStreamRequestHandler::handle", f"{RH}::BiStreamRequestHandler::do_handle")
+                            holders = [b2 for b2 in prog.bodies.values() if b2.crate == "anemo" and any(path in (l_.get("ty") or "") for l_ in b2.locals)]
+                            ok = not embedded and bool(holders) and all(all(o_ in PER_RPC for o_ in owner_paths(prog, b2)) and owner_paths(prog, b2) for b2 in holders)
                         ob.require(ok, f"stream-owner/{path}.{f['name']}", f"{path}.{f['name']}: {ty} holds a stream", path)
         ob.floor(n, 3, "stream-holding fields (BiStreamRequestHandler.send_stream/.recv_stream, SendStream.0)")
         # no static/global holding streams: no `static` whose type mentions a stream
